@@ -947,3 +947,23 @@ package graphql
 //@   loop 1 ensures typeis(isel, "*ast.Field") && as(isel, "*ast.Field").Alias != nil && as(isel, "*ast.Field").Name != nil ==> calls("writeString") >= atloop(1, calls("writeString")) + 2
 //@   loop 1 ensures typeis(isel, "*ast.FragmentSpread") && as(isel, "*ast.FragmentSpread").Name != nil ==> calls("writeFragmentBody") == atloop(1, calls("writeFragmentBody")) + 1
 //@   at call writeFragmentBody: assert arg1 == s.Name.Value
+
+// ---- enums: nothing is filled lazily at execute time (C07), values are listed in a defined order (C12) ----
+// Serialize / ParseValue / ParseLiteral run inside concurrently executing requests on the shared
+// schema: they must not write the Enum (its lookup tables are built by the constructor).
+//@ func Enum.Serialize
+//@   props C07
+//@   nosafety
+//@   assigns nothing
+//@ func Enum.ParseValue
+//@   props C07
+//@   nosafety
+//@   assigns nothing
+//@ func Enum.ParseLiteral
+//@   props C07
+//@   nosafety
+//@   assigns nothing
+//@ func Enum.defineEnumValues
+//@   props C12 C10
+//@   nosafety
+//@   orderfree
